@@ -110,6 +110,7 @@ type RLStep struct {
 	Key    int    `json:"key"`              // 0..5 (connect: 0..2)
 	Route  string `json:"route,omitempty"`  // add/del: "direct" (RefuseList method) | "endblock" (AdminOp.EndBlock)
 	Signed bool   `json:"signed,omitempty"` // connect: the peer announces a credential by the authority
+	Dial   bool   `json:"dial,omitempty"`   // connect: the node under test is the dialling side
 }
 
 type RLCase struct {
@@ -127,6 +128,7 @@ func genRLLookup(t *rapid.T, k int) RLStep {
 	s := RLStep{Op: rapid.SampledFrom(kinds).Draw(t, "lookup"), Key: k}
 	if s.Op == "connect" {
 		s.Signed = rapid.IntRange(0, 3).Draw(t, "signed") > 0
+		s.Dial = rapid.IntRange(0, 2).Draw(t, "dial") == 0
 	}
 	return s
 }
@@ -516,7 +518,10 @@ func runRL(c RLCase, x *h.Ctx) {
 			psw.SetNodePrivKey(pk)
 			psw.SetNodeInfo(&p2p.NodeInfo{PubKey: pk.PubKey(), SigndPubKey: cred, Moniker: "peer", Network: "c20", Version: "0.1.0", ListenAddr: fmt.Sprintf("10.0.1.%d:46656", k+2)})
 			c1, c2 := pipePair()
-			chNode, chPeer := addPeer(n.sw, c1, false), addPeer(psw, c2, true)
+			chNode, chPeer := addPeer(n.sw, c1, s.Dial), addPeer(psw, c2, !s.Dial)
+			if s.Dial {
+				x.Label("node-is-the-dialling-side")
+			}
 			var rn addRes
 			timer := time.NewTimer(180 * time.Second)
 			select {
